@@ -387,11 +387,16 @@ func TestChainContradiction(t *testing.T) {
 	rapid.Check(t, func(t *rapid.T) {
 		n := rapid.IntRange(3, 5).Draw(t, "n")
 		batch := n
-		gens := make([][]byte, n)
+		// n BFT validators plus one generator WITHOUT BFT weight (standby): LIP-0014 contradiction is defined per generator, whatever its
+		// weight (added after seeded change C07-u: the chain check returned early for generators that are not in the active vote set)
+		ng := n + 1
+		gens := make([][]byte, ng)
 		vals := make([]bftsim.Val, n)
 		for i := range gens {
 			gens[i] = bytes.Repeat([]byte{byte(i + 1)}, 20)
-			vals[i] = bftsim.Val{Addr: gens[i], Weight: 1, BLS: bytes.Repeat([]byte{byte(i + 1)}, 48)}
+			if i < n {
+				vals[i] = bftsim.Val{Addr: gens[i], Weight: 1, BLS: bytes.Repeat([]byte{byte(i + 1)}, 48)}
+			}
 		}
 		w := uint64(n)
 		thr := w*2/3 + 1
@@ -412,9 +417,9 @@ func TestChainContradiction(t *testing.T) {
 		A, B := mk(), mk()
 		defer A.sim.Close()
 		defer B.sim.Close()
-		maxGen := make([]uint32, n)     // largest height each validator generated so far (any branch)
-		onBranch := make([]int, n)      // which branch the validator currently follows (0=A, 1=B)
-		lastHdr := make([]*bftsim.Hdr, n) // most recent header per validator (any branch)
+		maxGen := make([]uint32, ng)    // largest height each validator generated so far (any branch)
+		onBranch := make([]int, ng)     // which branch the validator currently follows (0=A, 1=B)
+		lastHdr := make([]*bftsim.Hdr, ng) // most recent header per validator (any branch)
 		steps := rapid.IntRange(4, 4*3*batch).Draw(t, "steps")
 		forkAt := rapid.IntRange(1, steps/2+1).Draw(t, "forkAt")
 		switched := false
@@ -423,7 +428,7 @@ func TestChainContradiction(t *testing.T) {
 		var hist [][]any
 		var chainA []*bftsim.Hdr // headers applied to branch A, oldest first: the window is DEFINED on this list, not read back from the module
 		for s := 0; s < steps; s++ {
-			g := rapid.IntRange(0, n-1).Draw(t, "gen")
+			g := rapid.IntRange(0, ng-1).Draw(t, "gen")
 			if s < forkAt {
 				// common prefix: apply to both
 				h := &bftsim.Hdr{H: A.tip + 1, Gen: gens[g], MHG: maxGen[g]}
@@ -485,7 +490,10 @@ func TestChainContradiction(t *testing.T) {
 		}
 		// Boundary phase (added after seeded change C07-o: window one header short): one validator stays away while the others
 		// extend branch A until its latest header on A sits at a drawn position around the oldest place of the 3-round window.
-		v := rapid.IntRange(0, n-1).Draw(t, "byz")
+		v := rapid.IntRange(0, ng-1).Draw(t, "byz")
+		if v == n {
+			evid.R.Label("chain-byzantine-candidate-by-generator-without-bft-weight", 1)
+		}
 		boundary := ""
 		if rapid.IntRange(0, 2).Draw(t, "boundaryPhase") > 0 {
 			var others []int
